@@ -103,6 +103,9 @@ class Ocp(Stage):
 
     def _transcribe(self,**kwargs):
         if not self.is_transcribed:
+            # The method objects are shared with earlier (invalidated) transcriptions:
+            # start from a clean slate
+            self._untranscribe(force=True)
             self._transcribed_placeholders.clear()
             self._transcribe_recurse(phase=0,**kwargs)
             self._placeholders_transcribe_recurse(1,self._transcribed_placeholders)
@@ -111,8 +114,8 @@ class Ocp(Stage):
 
             self._transcribe_recurse(phase=2,placeholders=self.placeholders_transcribed,**kwargs)
     
-    def _untranscribe(self,**kwargs):
-        if self.is_transcribed:
+    def _untranscribe(self,force=False,**kwargs):
+        if self.is_transcribed or force:
             self._transcribed_placeholders.clear()
             self._untranscribe_recurse(phase=0)
             self._placeholders_untranscribe_recurse(1)
@@ -284,7 +287,10 @@ class Ocp(Stage):
         return simulator
 
     def save(self,name):
-        self._untranscribe()
+        self._untranscribe(force=True)
+        # Transcribed copies of an earlier transcription may still hold solver objects
+        for s in self.iter_stages(include_self=True):
+            s._var_augmented = None
         import pickle
         with rockit_pickle_context():
             pickle.dump(self,open(name,"wb"))
